@@ -114,6 +114,15 @@ def h_seq(shape):
         acc = {}  # (q, basis) -> accumulated shift
         last_shift_t = {}
         obs = []
+        if shape.get("pre_dmm"):
+            # the ground-rydberg basis is created by the DMM / SLM path before any channel is declared
+            if shape["pre_dmm"] == "dmap":
+                seq.config_detuning_map(seq.register.define_detuning_map({"q0": 1.0, "q1": 0.5}), "dmm_0")
+            else:
+                seq.config_slm_mask(["q1"])
+            for q in qids:
+                acc.setdefault((q, "ground-rydberg"), 0.0)
+                last_shift_t.setdefault((q, "ground-rydberg"), 0)
         for (name, cid, it) in shape["channels"]:
             seq.declare_channel(name, cid, **({"initial_target": it} if it else {}))
             b = seq.declared_channels[name].basis
@@ -231,6 +240,16 @@ def kernels(tier):
             progs.append([["add", g, "min-delay", 16, True], ["add", "b", "min-delay", 16, True], ["target", "b", "q2"], ["add", "b", "min-delay", 16, True], ["add", g, "min-delay", 16, True]])
         for pr in progs:
             ks.append(("seq", dict(device=dev, channels=chans, program=pr)))
+        for pre in ("dmap", "slm"):
+            if dev == "digital":
+                continue
+            ks.append(("seq", dict(device=dev, channels=[chans[2]], pre_dmm=pre, program=[
+                ["shift", ["q0"], ryd], ["shift", ["q1", "q2"], ryd], ["add", "r", "min-delay", 16, True], ["shift", ["q2"], ryd]])))
+        if dev == "virt":
+            # durations that are not clock multiples (the pulse is stretched) with a non-zero reference
+            ks.append(("seq", dict(device=dev, channels=chans, program=[
+                ["shift", [], ryd], ["add", "r", "min-delay", 17, True], ["add", "r", "min-delay", 19, False],
+                ["shift", ["q0"], dig], ["add", "b", "min-delay", 15, False]])))
         if dev != "digital":
             # the late-shifted qubit must be able to sit anywhere in the
             # iteration order of the target set: vary which qubit it is
